@@ -56,6 +56,17 @@ def run(ck, rng, tier):
             off = rng.choice((1.5e8, 3e8, -2e8))
             ys = [off + 1e3 * y for y in ys]
             ck.count("ordinates of order 1e8")
+        if c in (3, 4) or (thorough and c % 25 == 11):
+            # spacings at both ends of the scale in ONE set: knots about 1e4 apart and one pair only 1e-4 apart (below
+            # 1e-9 of the span) with clearly different ordinates
+            n = rng.randint(13, 32)
+            spacing, kind = 1e4, "general"
+            xs = gen_knots(rng, n, spacing, True)
+            k = rng.randrange(2, n - 2)
+            xs[k] = xs[k - 1] + 1e-4 * rng.uniform(1.0, 3.0)
+            ys = [rng.gauss(0, 1) for _ in xs]
+            ys[k] = ys[k - 1] + rng.choice((0.25, -0.4))
+            ck.count("knots 1e4 apart with one pair 1e-4 apart")
         # query points: the knots themselves and interior points
         q = list(xs) + [xs[i] + (xs[i + 1] - xs[i]) * rng.uniform(0.1, 0.9) for i in range(n - 1)]
         lines.append("spline %s %s" % (vf.fmt_mat([[x, y] for x, y in zip(xs, ys)]), vf.fmt_vec(q)))
